@@ -167,6 +167,14 @@ def boundary_sources():
         out.append((f"gen/parenattr_{n}", f"fn f() {{\n    let x = (#[allow(unused)] ({a} + bbbbbbbb));\n    let y = ((#[cfg(unix)] (({a} - cccccccc))));\n    foo((#[allow(unused_parens)] ({a})), 2);\n}}\n"))
         out.append((f"gen/skipattr_{n}", f"impl S {{\n    #[rustfmt::skip]\n    /* keep the table aligned */\n    #[inline]\n    fn foo{a}(&self) {{}}\n\n    #[allow(unused)]\n    // a line comment\n\n    #[rustfmt::skip]\n    fn bar(&self)   {{}}\n}}\n\n#[derive(Debug)]\n// between attributes\n#[rustfmt::skip]\nstruct T{a} {{ a:u8 }}\n"))
         out.append((f"gen/deepmac_{n}", f"mod a {{\n    mod b {{\n        mod c {{\n            mod d {{\n                macro_rules! m{a} {{\n                    () => {{\n                        1\n                    }};\n                    ($x:expr) => ($x + {a});\n                }}\n                fn f() {{\n                    let v = m{a}!(1);\n                }}\n            }}\n        }}\n    }}\n}}\n"))
+        out.append((f"gen/userun_{n}", f"use alpha::{{beta, gamma}};\nuse delta::{a};\nuse epsilon::{{zeta, eta::{{theta, iota}}}};\nuse crate as root_{a};\nuse super::{{kappa as k, lambda}};\n\nfn x() {{}}\n"))
+        out.append((f"gen/deriveattr_{n}", f"#[derive(Debug)]\n\n#[repr(C)]\nstruct S{a};\n\n#[derive(Clone)]\n// comment in the gap\n\n#[cfg(unix)]\n#[derive(Copy)]\n\n/// doc after a derive\n#[allow(unused)]\n\n#[derive(PartialEq, Eq)]\nenum E{a} {{\n    A,\n}}\n"))
+        out.append((f"gen/jumpblock_{n}", f"fn f(xs: &[u32], opt: Option<u32>) -> u32 {{\n    let Some(v{a}) = opt else {{ return 0; }};\n    let c = || {{ return xs[0]; }};\n    for x in xs {{\n        match x {{\n            0 => {{ continue; }}\n            1 => {{ return {a}; }}\n            _ => {{ break; }}\n        }}\n    }}\n    if v{a} > 1 {{ return 1; }} else {{ return 2; }}\n}}\n"))
+        out.append((f"gen/macstmt_{n}", f"macro_rules! swap_{a} {{\n    ($a:ident, $b:ident) => {{\n        let tmp = $a; $a = $b; $b = tmp;\n    }};\n    ($x:expr) => {{\n        $x + {a}\n    }};\n}}\n\n/// ```\n/// let  v{a} = 1;\n/// assert_eq!(v{a}, 1);\n/// ```\nfn documented() {{}}\n"))
+        out.append((f"gen/constlong_{n}", f"pub const LONG_NAME_{a.upper()}: some_crate::some_module::another_module::yet_another_module::SomeVeryLongTypeName = 1;\nstatic ST_{a.upper()}: some_crate::some_module::another_module::yet_another_module::AnotherLongTypeName<u8> = make();\ntrait T {{\n    const ASSOC_{a.upper()}: some_crate::some_module::another_module::yet_another::SomeVeryLongTypeName;\n}}\n"))
+        out.append((f"gen/colonpath_{n}", f"struct P{a} {{ x: ::std::string::String, y: ::core::option::Option<u8> }}\nfn f{a}(y: ::core::option::Option<u8>) {{\n    let z: ::std::vec::Vec<u8> = v;\n}}\n"))
+        out.append((f"gen/attrmisc_{n}", f"type F{a} = fn(#[cfg(x)] u8, #[cfg(y)] b: u16);\nfn f(x: f64, t: (u8, u8, u8)) {{\n    let c = || #[allow(unused)] {{ foo({a}) }};\n    let (.., _, _) = t;\n    let (p{a}, _, _) = t;\n}}\n"))
+        out.append((f"gen/floatrange_{n}", f"fn f{a}(x: f64) {{\n    match x {{\n        1. ..=2. => {{}}\n        3. .. => {{}}\n        4.0..=5.0 => {{}}\n        _ => {{}}\n    }}\n}}\n"))
         out.append((f"gen/tuple1_{n}", f"fn f((a,): (u32,), t: (u8,)) -> (u32,) {{\n    let (x,) = t;\n    let v{a} = match t {{\n        (y,) => y,\n    }};\n    for (k,) in items {{\n        g(|(c,)| c, Some((k,)), (x,), [(v{a},)]);\n    }}\n    if let Some((w,)) = opt {{\n        return ({a},);\n    }}\n    (a,)\n}}\n"))
         out.append((f"gen/quals_{n}", f"pub(crate) const unsafe extern \"C\" fn {a}<'a, T>(x: &'a mut T) -> impl Iterator<Item = &'a T> + 'a {{}}\npub async unsafe fn g{a}(self: Pin<&mut Self>) {{}}\n"))
     return out
